@@ -79,6 +79,11 @@ struct parquet_schema_element {
     /* Field 10: logicalType (modern logical type) */
     bool has_logical_type;
     carquet_logical_type_t logical_type;
+
+    /* Derived, not stored in the file: maximum definition / repetition level of this
+     * node (optional-or-repeated / repeated nodes on the path from the root, itself included) */
+    int16_t max_def_level;
+    int16_t max_rep_level;
 };
 
 /* ============================================================================
